@@ -21,8 +21,9 @@ import (
 
 // ival is the stored value: Key == nil means "not indexed"
 type ival struct {
-	Key   *string `json:"key"`
-	Other int     `json:"other"`
+	Key     []byte `json:"key"`     // raw bytes (base64 in the stored JSON), may contain 0xFF
+	Indexed bool   `json:"indexed"` // false: the key function returns nil
+	Other   int    `json:"other"`
 }
 
 type iquery struct {
@@ -91,11 +92,11 @@ func newC13World(prefix string) (*c13world, error) {
 		w.bs.SetPrefix(prefix)
 	}
 	w.qs = badgerstore.NewQueryStore(w.bs, parseQuery).AddIndex(badgerstore.Index{Name: "k", Key: func(v interface{}) []byte {
-		k := v.(ival).Key
-		if k == nil {
+		iv := v.(ival)
+		if !iv.Indexed {
 			return nil
 		}
-		return []byte(*k)
+		return append([]byte{}, iv.Key...)
 	}})
 	w.qs.OnQueryChange(func(qc store.QueryChange) {
 		w.cbMu.Lock()
@@ -139,8 +140,8 @@ func entryOf(id string, v interface{}) rec {
 	if v == nil {
 		return e
 	}
-	if iv, ok := v.(ival); ok && iv.Key != nil {
-		e["key"] = bytesOf(*iv.Key)
+	if iv, ok := v.(ival); ok && iv.Indexed {
+		e["key"] = bytesOf(string(iv.Key))
 		e["idx"] = true
 	}
 	return e
@@ -176,17 +177,24 @@ func (w *c13world) mutate(id string, key *string, del bool, other int) error {
 			delete(w.model, id)
 		}
 	case t.Exists():
-		err = t.Update(ival{Key: key, Other: other})
+		err = t.Update(mkIval(key, other))
 		if err == nil {
 			w.model[id] = key
 		}
 	default:
-		err = t.Create(ival{Key: key, Other: other})
+		err = t.Create(mkIval(key, other))
 		if err == nil {
 			w.model[id] = key
 		}
 	}
 	return err
+}
+
+func mkIval(key *string, other int) ival {
+	if key == nil {
+		return ival{Other: other}
+	}
+	return ival{Key: []byte(*key), Indexed: true, Other: other}
 }
 
 func (w *c13world) query(q iquery) ([][]int, error) {
@@ -202,8 +210,8 @@ func (w *c13world) query(q iquery) ([][]int, error) {
 }
 
 var c13ids = []string{"a", "b", "ab", "ba"}
-var c13keys = []string{"", "a", "b", "c", "aa", "ab", "ca"}
-var c13prefixes = []string{"", "a", "b", "c", "aa", "ab", "ac", "ca", "d", "aab", "a\x00", "\x00", "ab\x00a"}
+var c13keys = []string{"", "a", "b", "c", "aa", "ab", "ca", "\xff", "a\xff", "a\xffb"}
+var c13prefixes = []string{"", "a", "b", "c", "aa", "ab", "ac", "ca", "d", "aab", "a\x00", "\x00", "ab\x00a", "\xff", "a\xff"}
 
 func randQuery(rng *rand.Rand) iquery {
 	return iquery{prefix: c13prefixes[rng.Intn(len(c13prefixes))], filter: []string{"none", "none", "odd"}[rng.Intn(3)], offset: rng.Intn(4), limit: []int{-1, -1, 0, 1, 2, 5}[rng.Intn(6)], reverse: rng.Intn(2) == 0}
